@@ -14,10 +14,14 @@ func parseUrlPath(pathStr string, m meta.Definition) ([]*Path, error) {
 	p := &Path{Meta: m}
 	path := []*Path{}
 	segments := strings.Split(pathStr, "/")
-	for _, segment := range segments {
+	for i, segment := range segments {
 
 		// a/b/c same as a/b/c/
 		if segment == "" {
+			if i < len(segments)-1 {
+				// "/a/b", "a//b": what follows the empty step would be dropped without a word
+				return nil, fmt.Errorf("%w. empty step in path '%s'", fc.BadRequestError, pathStr)
+			}
 			break
 		}
 
@@ -72,8 +76,9 @@ func parseUrlPath(pathStr string, m meta.Definition) ([]*Path, error) {
 			if !isList {
 				return nil, fmt.Errorf("%w. %s is not a list and cannot have a key", fc.BadRequestError, ident)
 			}
-			if len(keyStrs) < len(list.KeyMeta()) {
-				// the missing components would be nil values that the nodes then dereference
+			if len(keyStrs) != len(list.KeyMeta()) {
+				// missing components would be nil values that the nodes then dereference, surplus
+				// ones would be dropped: another key than the one that was written
 				return nil, fmt.Errorf("%w. %s needs %d key components, got %d", fc.BadRequestError, ident, len(list.KeyMeta()), len(keyStrs))
 			}
 			if seg.Key, err = NewValuesByString(list.KeyMeta(), keyStrs...); err != nil {
